@@ -57,7 +57,7 @@ func TestC10(t *testing.T) {
 		}
 	}
 
-	ev.Check(t, rec, "registry", rec.Pick(450, 2000), genRegistryCase, runRegistryCase)
+	ev.Check(t, rec, "registry", rec.Pick(650, 4000), genRegistryCase, runRegistryCase)
 	ev.Check(t, rec, "filter", rec.Pick(25000, 320000), genFilterCase, runFilterCase)
-	ev.Check(t, rec, "discovery", rec.Pick(700, 6000), genDiscoveryCase, runDiscoveryCase)
+	ev.Check(t, rec, "discovery", rec.Pick(900, 10000), genDiscoveryCase, runDiscoveryCase)
 }
